@@ -25,6 +25,7 @@ from happysimulator.core.entity import Entity
 from happysimulator.core.event import Event
 from happysimulator.core.simulation import Simulation
 from happysimulator.core.temporal import Duration, Instant
+from happysimulator.distributions.constant import ConstantLatency
 from happysimulator.parallel.link import PartitionLink
 from happysimulator.parallel.partition import SimulationPartition
 from happysimulator.parallel.simulation import ParallelSimulation
@@ -44,6 +45,7 @@ class Prog:
     evs: list                # evs[i-1] = (t_abs, tgt, par)
     cont: frozenset = frozenset()      # ids realised as the resumption of the parent's generator
     override: dict = field(default_factory=dict)   # (p, q) -> ticks: link.latency object (constant)
+    real_dist: bool = False  # link.latency is a real ConstantLatency (else a duck-typed object with sample())
 
     def key(self):
         return (tuple(self.ep), self.np, tuple(sorted(self.links)), tuple(sorted(self.lat.items())), self.w,
@@ -103,7 +105,8 @@ class Prog:
                 heapq.heappush(heap, (self.evs[c - 1][0], new_of[c], c))
         evs = [(self.evs[i - 1][0], self.evs[i - 1][1], new_of.get(self.evs[i - 1][2], 0)) for i in order]
         return Prog(ep=self.ep, np=self.np, links=self.links, lat=self.lat, w=self.w, end_t=self.end_t, evs=evs,
-                    cont=frozenset(new_of[c] for c in self.cont), override=self.override)
+                    cont=frozenset(new_of[c] for c in self.cont), override=self.override,
+                    real_dist=self.real_dist)
 
     @staticmethod
     def from_state(st):
@@ -124,6 +127,10 @@ class Opts:
 
 class WindowLimit(RuntimeError):
     """Harness watchdog: the coordinator ran far more windows than the program can need."""
+
+
+class DeliveryLimit(RuntimeError):
+    """Harness watchdog: far more deliveries than the program has events (runaway duplication)."""
 
 
 def roundtrip_ok(ns: int) -> bool:
@@ -208,6 +215,8 @@ class World:
         self.error = None
         horizon = max([t for t, _g, _p in prog.evs] + [0])
         self.window_limit = 3 * (horizon // max(prog.w, 1) + 5) + 20
+        self.delivery_limit = 4 * len(prog.evs) + 50
+        self.n_deliveries = 0
 
     # -- time ---------------------------------------------------------------
     def ticks(self, ns):
@@ -219,6 +228,9 @@ class World:
 
     # -- handler ------------------------------------------------------------
     def record(self, e, i, now_ns):
+        self.n_deliveries += 1
+        if self.n_deliveries > self.delivery_limit:
+            raise DeliveryLimit(f"more than {self.delivery_limit} deliveries for {len(self.prog.evs)} events")
         self.elog[e].append((i, now_ns))
         p = self.prog.ep[e - 1]
         if self.mode == "par":
@@ -362,8 +374,10 @@ def run_parallel(prog: Prog, opts: Opts) -> World:
     links = []
     for (a, b) in prog.links:
         ov = prog.override.get((a, b))
-        links.append(PartitionLink(names[a], names[b], min_latency=prog.lat[(a, b)] * tick_s,
-                                   latency=_FixedLatency(ov * opts.tick_ns) if ov is not None else None))
+        dist = None
+        if ov is not None:
+            dist = ConstantLatency(Duration(ov * opts.tick_ns)) if prog.real_dist else _FixedLatency(ov * opts.tick_ns)
+        links.append(PartitionLink(names[a], names[b], min_latency=prog.lat[(a, b)] * tick_s, latency=dist))
     kw = {"max_workers": opts.workers}
     if prog.end_t != INF:
         kw["end_time"] = Instant(prog.end_t * opts.tick_ns)
@@ -434,6 +448,8 @@ def make_trace(tid: int, prog: Prog, par: World, ref: World) -> dict:
     coord = bool(prog.links)
     log = []
     n0 = s0 = 0
+    raised = bool(par.error) and not par.error.startswith(("WindowLimit", "DeliveryLimit"))
+    err = "" if not raised else ("no_sample" if "no attribute 'sample'" in par.error else "other")
     if coord:
         nwin = max(len(v) for v in par.precs.values())
         for k in range(nwin):
@@ -446,6 +462,9 @@ def make_trace(tid: int, prog: Prog, par: World, ref: World) -> dict:
                     else:
                         log.append(["s", p, r[1]])
                 log.append(["D", p])
+            if raised and k + 1 == nwin:
+                log.append(["C"])       # run() raised during (or instead of) this barrier
+                break
             log.append(["X", [[i, q] for (i, q, done, _t) in par.xrecs if done == k + 1]])
             if k + 1 < nwin:
                 n, s = win_pos(par, par.precs[1][k + 1]["end"])
@@ -461,7 +480,8 @@ def make_trace(tid: int, prog: Prog, par: World, ref: World) -> dict:
     log.append(["end"])
     return {"id": tid, "mode": "coord" if coord else "indep", "ep": prog.ep, "np": prog.np,
             "links": [[a, b, prog.lat[(a, b)]] for (a, b) in prog.links], "w": prog.w, "endT": prog.end_t,
-            "n0": n0, "s0": s0, "evs": [list(e) for e in prog.evs], "seq": ref.entity_log_ticks(), "log": log}
+            "n0": n0, "s0": s0, "evs": [list(e) for e in prog.evs], "seq": ref.entity_log_ticks(), "log": log,
+            "ovl": [list(l) for l in sorted(prog.override)] if prog.real_dist else [], "err": err}
 
 
 def py_compare(prog: Prog, par: World, ref: World):
